@@ -74,7 +74,7 @@ type sess struct {
 	last     *types.Block // last block handed to ChainSvc in this session
 	nAdded   int
 	lastRspOK uint64 // height of the last AddBlockRsp (no error) delivered while this session ran
-	finderHonest bool
+	finderHonest bool // every finder answer that carried content was truthful (errors / silence allowed)
 	lied         bool // a peer gave this session an answer that is not merely late, missing or an error
 	lightNone    bool // the honest answer of the light scan was "none" (or the light scan is off)
 	fullScan     bool
